@@ -497,7 +497,9 @@ def _relabel_mutations_node(
     remove_position = edges_right[remove_index]
     sequence_length = remove_position[-1]
 
-    output = np.full(num_mutations, tskit.NULL, dtype=np.int32)
+    # a mutation whose node is in no edge at its position (an isolated sample, or a
+    # site beyond the last edge) has no piece to move to and keeps its node
+    output = mutations_node.copy()
     nodes_map = np.full(num_nodes, tskit.NULL, dtype=np.int32)
     a, b, m = 0, 0, 0
     left = 0.0
@@ -520,8 +522,8 @@ def _relabel_mutations_node(
         left = right
 
         while m < num_mutations and mutations_position[m] < right:
-            assert nodes_map[mutations_node[m]] != tskit.NULL
-            output[m] = nodes_map[mutations_node[m]]
+            if nodes_map[mutations_node[m]] != tskit.NULL:
+                output[m] = nodes_map[mutations_node[m]]
             m += 1
 
     return output
